@@ -552,6 +552,48 @@ func timingProduct(part, parts int) {
 	}
 }
 
+// longTakes: recordings of 1500 messages (thorough 20000): every pattern of one
+// or two messages over eight kinds, gaps cycling through 0, 1, 3 and 20 ms,
+// two tempo / resolution pairs.
+func longTakes(part, parts int) {
+	var kinds []ls.SMsg
+	for _, k := range []string{"NoteOn0a", "NoteOn0b", "NoteOff0", "Prog0", "Clock", "SPP", "SysExMin", "TwoDataBytes"} {
+		for _, m := range alphabet {
+			if m.Name == k {
+				kinds = append(kinds, m)
+			}
+		}
+	}
+	total := ctx.Pick(1500, 20000)
+	gapc := []int32{0, 1, 3, 20}
+	k := 0
+	for a := range kinds {
+		for b := -1; b < len(kinds); b++ {
+			k++
+			if k%parts != part {
+				continue
+			}
+			seq := make([]ls.SMsg, 0, total+1)
+			sl := make([]int32, 0, total+1)
+			for len(seq) < total {
+				seq = append(seq, kinds[a])
+				sl = append(sl, gapc[len(sl)%4])
+				if b >= 0 {
+					seq = append(seq, kinds[b])
+					sl = append(sl, gapc[len(sl)%4])
+				}
+			}
+			for _, tr := range []struct {
+				bpm float64
+				res smf.MetricTicks
+			}{{120, 960}, {125, 240}} {
+				record(seq, sl, tr.bpm, tr.res, "track")
+				ctx.Add("long_takes", 1)
+			}
+		}
+	}
+}
+
 // twoRecordings: two in ports record into the same SMF at overlapping times
 // (SMF.RecordFrom twice); every track must hold exactly the channel messages
 // of its own port, in order.
@@ -656,6 +698,7 @@ func main() {
 	ctx.Assume("timing tolerance: one tick per stored delta up to the message (each delta is rounded separately)")
 	ctx.Jobs("record", len(alphabet), func(j int) { space(j) })
 	ctx.Jobs("timing-product", 16, func(j int) { timingProduct(j, 16) })
+	ctx.Jobs("long-takes", 16, func(j int) { longTakes(j, 16) })
 	ctx.Jobs("two-ports", 1, func(int) { twoRecordings(); recordTo(); reusingDriver(); queuedDriver() })
 	ctx.Set("message_alphabet", len(alphabet))
 	ctx.Set("tempi", tempi)
